@@ -12,16 +12,83 @@ TB = ('Trusted: Coq 8.16.1 kernel (vm_compute in finite side-conditions, no nati
       'code; Uint63 primitives only hash observations); Python harness, CPython/numpy/networkx substrate. ')
 
 CHECKS = {
+ 'C01': dict(
+    text='Machine-checked proof (Coq) that EVERY state reachable by ANY sequence of the public mutators of the concrete model (which mirrors '
+         'the two edge indexes, the per-node directed lists and the time-series indexes of the real classes) satisfies the invariant Inv: unique '
+         'node names, mirrored indexes, at most one edge per unordered pair, per-node lists equal to the directed edges, and that every read view '
+         'reports that one state (inv_run, one_edge_per_pair, views_agree). The model is executable and is compared with the real classes after '
+         'EVERY step of random and exhaustive-short histories (all mutators, argument forms, edge types, both classes, warm/cold caches): any '
+         'divergence in observable state or error class is reported as a failing history.',
+    note=TB, technique='Coq invariant proof by induction over histories + step-by-step model/implementation correspondence', design='§7 C01'),
+ 'C02': dict(
+    text='Machine-checked proof that the literal cycle-check loop terminates within its fuel and decides "lies on a directed cycle" '
+         '(cycle_check), that every validated mutation preserves acyclicity of the directed part for all histories (acyclic_step, acyclic_run), '
+         'that a directed add is refused with CyclicConnectionError exactly when it closes a cycle (add_edge_cyclic_iff), and that is_dag is true '
+         'exactly for all-directed acyclic graphs with no acyclicity premise (is_dag_spec). Tied to the code by step-by-step correspondence on '
+         'cycle-seeking histories and by running every constructor on every binary matrix up to a bound.',
+    note=TB + 'networkx.is_directed_acyclic_graph is modelled by its specification (acyclicb); GML parsing is exercised, not modelled.',
+    technique='Coq proof of loop correctness + acyclicity invariant; correspondence', design='§7 C02'),
+ 'C04': dict(
+    text='Machine-checked meta-theorem (Cache.v) that for EVERY interleaving of reads and mutations a cached read equals the uncached function '
+         'of the current state, i.e. the answer of a never-queried copy, given that successful mutators reset every memoised field and failed ones '
+         'change no derived answer; the premises are proved BY COMPUTATION about tables REGENERATED FROM THE SOURCE on every run '
+         '(tools/extract_facts.py -> Extracted.v -> Facts.v: every state-writing public method is decorated, memoised fields are a subset of reset '
+         'fields incl. inheritance, mutators never read a cache, mutable caches are returned by copy). A dynamic search compares every derived '
+         'answer with from_dict(to_dict(g)) after every mutation, warm and cold.',
+    note=TB + 'The two semantic hypotheses of the instance (non-mutators change no derived answer; failed calls are atomic = C03) are validated dynamically.',
+    technique='Coq meta-theorem instantiated on tables regenerated from source (fail-closed extractor) + dynamic stale-read search', design='§7 C04'),
+ 'C10': dict(
+    text='Machine-checked proofs that the executable query models equal their graph-theoretic definitions on all graphs: descendants/ancestors = '
+         'transitive closure, all_paths = exactly the simple directed paths, the memoised nodes_between recursion = {v | a ~>* v ~>* b} on DAGs, '
+         'directed_path_exists (fuelled, as written) = reachability on acyclic directed parts, all_topo = exactly the linear extensions, renaming '
+         'invariance. Tied to the code by comparing every query on every labelled DAG up to 4 (quick) / 5 (thorough) nodes and sampled larger ones.',
+    note=TB + 'networkx routines (ancestors, descendants, all_simple_paths, topological sorts) are modelled by specification; the sub-graph builders are modelled as written and compared, their induced-subgraph property is validated not proved.',
+    technique='Coq proofs of query = definition; exhaustive small-scope correspondence', design='§7 C10'),
+ 'C11': dict(
+    text='Machine-checked proof that the executable dsepb decides the path-based definition of d-separation for all graphs (dsepb_correct), '
+         'symmetry, and the exact minimal-separator checker (min_sepb_spec). The library delegates to networkx; agreement of is_d_separated / '
+         'is_minimally_d_separated with dsepb / min_sepb is checked for EVERY DAG up to 4 (quick) / 5 (thorough) nodes, every pair and every '
+         'conditioning subset, and every get_d_separation_set answer is checked by the Coq predicate.',
+    note=TB + 'Nothing is proved ABOUT networkx: its routines are modelled by the textbook definition and validated exhaustively to the stated size (the general minimality of its separator is proved only for all DAGs on <= 4 nodes).',
+    technique='Coq proof of decision procedure = definition; exhaustive translation validation of the delegating code', design='§7 C11'),
  'C12': dict(
     text='Machine-checked proof (Coq) that the name codec model is a bijection between canonical names and (variable, lag) pairs for ALL '
          'good variable names and ALL integer lags (parse_fmt, fmt_zero, relag, fmt_inj, canonical_inv, exact rejection set), and that '
-         'the lag / variable indexes are an invariant of every reachable time-series state; the codec model is a direct transcription '
-         'of the regex semantics tied to utils.py by differential evaluation on all token strings up to a length plus hostile strings, '
-         'and the index/tag coherence is both compared with the model and evaluated directly on the implementation after every step of '
-         'random histories and constructors.',
+         'NodeOK / IdxOK are part of the invariant of every reachable time-series state with the lookups equal to a scan (inv_run, lookups_eq_scan); '
+         'the codec model is a direct transcription of the regex semantics tied to utils.py by differential evaluation on all token strings up '
+         'to a length plus hostile strings, and the index/tag coherence is both compared with the model and evaluated directly on the '
+         'implementation after every step of random histories and constructors.',
     note=TB + 'Non-ASCII decimal digits inside a marker are not modelled (Python \\d is Unicode-aware).',
-    technique='Coq proof of codec bijection + invariant; model/implementation correspondence by vm_compute',
-    design='§7 C12'),
+    technique='Coq proof of codec bijection + invariant; model/implementation correspondence by vm_compute', design='§7 C12'),
+ 'C13': dict(
+    text='Machine-checked proof that TimeOK (no stored edge points backwards in time; non-directed edges stored earlier->later) is part of the '
+         'invariant of EVERY reachable time-series state, that a time-sorted topological order exists for every such DAG and that return_all is '
+         'exactly the set of time-sorted topological orders (all_time_topo_spec). Tied to the code by step-by-step correspondence on time-series '
+         'histories, by checking every stored edge and (on DAG states) the default / return_all orders against brute force, and by constructor inputs naming lagged nodes.',
+    note=TB + 'networkx.lexicographical_topological_sort is checked (valid + time sorted), not recomputed.',
+    technique='Coq invariant proof + correspondence', design='§7 C13'),
+ 'C18': dict(
+    text='Machine-checked proofs about the confounder search as written (fuelled, in-place pruning): it terminates on DAGs, returns only common '
+         'ancestors, is symmetric in the pair; the promised sufficiency is REFUTED in Coq with a 5-node witness (recorded finding F12) and proved for '
+         'the finite domain of all DAGs on <= 4 nodes. The model is compared with identify_confounders on every ordered pair of every DAG up to 4/5 '
+         'nodes and sampled larger ones; sufficiency is evaluated by the Coq d-separation checker on the implementation\'s answers and failures are '
+         'matched against the committed known-findings list / rule.',
+    note=TB + 'Known finding F12 (known_findings.json) is reported as KNOWN-FINDING, any other failure as VIOLATION.',
+    technique='Coq proofs + refutation witness; exhaustive small-scope correspondence', design='§7 C18'),
+ 'C19': dict(
+    text='Machine-checked proofs that the mediator model equals the declarative characterisation (strictly inside every directed path of length '
+         '>= 2, not reached by a confounder avoiding the source) and the exact instrument characterisation, emptiness when the destination is an '
+         'ancestor; the instrument d-separation clause is proved for all DAGs on <= 4 nodes and evaluated by the Coq checker on every implementation '
+         'answer. The model is compared with the code on every ordered pair of every DAG up to 4/5 nodes, and the answers are re-computed under several '
+         'PYTHONHASHSEED values with multi-character identifiers.',
+    note=TB + 'max_num_paths is not modelled (fewer than 26 paths on the explored graphs).',
+    technique='Coq proofs of model = declarative spec; exhaustive small-scope correspondence; hash-seed sweep', design='§7 C19'),
+ 'C20': dict(
+    text='Machine-checked proofs that the Markov boundary is parents + children + co-parents, d-separates its node from every other node and is '
+         'minimal on every DAG (mb_shields, mb_minimal), that the Skeleton boundary is the neighbours, and that colliders / unshielded colliders are '
+         'exactly the nodes with two arrowheads / pairwise non-adjacent arrow senders. Compared with the code on every node of every DAG up to 4/5 '
+         'nodes and on all mixed graphs (->, <>, --; both stored orientations) on <= 3 (quick) / 4 (thorough) nodes.',
+    note=TB, technique='Coq proofs; exhaustive small-scope correspondence', design='§7 C20'),
 }
 
 
